@@ -277,6 +277,28 @@ func TestC12(t *testing.T) {
 				r.NonTrivial("s:" + s)
 			}
 		}
+		// exact lengths: a run of one filler with a hostile byte at the end, in the middle or nowhere
+		if r.Shard == 0 {
+			lens := []int{}
+			for n := 0; n <= 130; n++ {
+				lens = append(lens, n)
+			}
+			for _, p := range []int{8, 9, 10, 11, 12, 13, 14, 15, 16} {
+				lens = append(lens, 1<<uint(p)-1, 1<<uint(p), 1<<uint(p)+1)
+			}
+			lens = append(lens, 1000, 10000, 100000, 1<<20+1)
+			fill := []string{"a", "\"", "\n", "é", "\xff", "%"}
+			for i, n := range lens {
+				f := fill[(i+int(r.Seed))%len(fill)]
+				body := strings.Repeat(f, n/len(f)+1)[:n]
+				for _, tail := range []string{"", "\\", "`"} {
+					hx.One(r, ck, Case{Kind: "string", S: recipe.Text(body + tail), Func: i%2 == 1})
+					hx.One(r, ck, Case{Kind: "string", S: recipe.Text(body[:n/2] + tail + body[n/2:])})
+				}
+				r.NonTrivial(fmt.Sprint("len", n, f))
+			}
+			r.ClassN("length_sweep", len(lens))
+		}
 		// runes
 		stride := 37
 		nr := 0
